@@ -225,6 +225,22 @@ static void s_scan_entry_points(Sc& s) {
   s.pre(); int rc = yr_scanner_scan_file(sc, path.c_str()); if (!s.S("yr_scanner_scan_file", rc, rec.text)) return;
   rec.clear(); s.pre(); rc = yr_scanner_scan_mem(sc, (const uint8_t*) buf.data(), buf.size()); s.S("yr_scanner_scan_mem#reuse", rc, rec.text);
 }
+static void s_matches_operator(Sc& s) {
+  s.arm(); if (!sc_init(s)) return; YR_COMPILER* c = sc_compiler(s); if (!c) return;
+  if (!ST(s, "yr_compiler_define_string_variable", yr_compiler_define_string_variable(c, "ext_s", "xaaaaaaab-aaaaab!"))) return;
+  if (!sc_add(s, c, "rule m { condition: ext_s matches /aaab!/ and ext_s matches /(a|b){2,6}-a+b/ }")) return;
+  YR_RULES* r = sc_get_rules(s, c); if (!r) return;
+  YR_SCANNER* sc = NULL;
+  if (!ST(s, "yr_scanner_create", yr_scanner_create(r, &sc))) return;
+  s.scanners.push_back(sc);
+  std::string buf = "irrelevant";
+  for (int round = 0; round < 2; round++) {
+    if (!ST(s, round ? "yr_scanner_define_string_variable#2" : "yr_scanner_define_string_variable", yr_scanner_define_string_variable(sc, "ext_s", round ? "bbaaaab-aab! xaaaaaaab-aaaaab!" : "xaaaaaaab-aaaaab! and more"))) return;
+    Recorder rec; yr_scanner_set_callback(sc, recorder_callback, &rec);
+    s.pre(); int rc = yr_scanner_scan_mem(sc, (const uint8_t*) buf.data(), buf.size());
+    if (!s.S(round ? "yr_scanner_scan_mem#2" : "yr_scanner_scan_mem", rc, rec.text)) return;
+  }
+}
 static void s_stats_profiling(Sc& s) {
   if (!sc_init(s)) return;
   YR_RULES* r = sc_compile(s, frags_src({"text", "hexjump", "regreedy"})); if (!r) return;
@@ -252,7 +268,7 @@ static const Scenario SCENARIOS[] = {
   {"scan_text", s_scan_text}, {"scan_regex", s_scan_regex}, {"scan_cond", s_scan_cond}, {"scan_many_matches", s_scan_many_matches},
   {"scan_pe", s_scan_pe}, {"scan_pe_signed", s_scan_pe_signed}, {"scan_elf", s_scan_elf}, {"scan_dotnet", s_scan_dotnet},
   {"scan_macho", s_scan_macho}, {"scan_dex", s_scan_dex}, {"scan_small_mods", s_scan_small_mods},
-  {"scan_entry_points", s_scan_entry_points}, {"stats_profiling", s_stats_profiling},
+  {"scan_entry_points", s_scan_entry_points}, {"stats_profiling", s_stats_profiling}, {"matches_operator", s_matches_operator},
 };
 static const int NSCEN = sizeof(SCENARIOS) / sizeof(SCENARIOS[0]);
 
